@@ -11,6 +11,7 @@ package vsched
 
 import (
 	"bytes"
+	"fmt"
 	"reflect"
 	"runtime"
 	"strconv"
@@ -64,6 +65,7 @@ func Reset() {
 	all = map[string]*G{}
 	order = nil
 	counter = map[string]int{}
+	Panics = nil
 	mu.Unlock()
 }
 
@@ -100,6 +102,12 @@ func Names() []string {
 	return append([]string(nil), order...)
 }
 
+// KeepPanics: players that set it get the panics of managed goroutines in Panics (and must report them) instead of dying.
+var (
+	KeepPanics bool
+	Panics     []string
+)
+
 // Go starts f as a managed goroutine and returns once it is parked at its
 // first gate (or has finished). A name that is already taken gets "#k".
 func Go(name string, f func()) *G {
@@ -122,6 +130,16 @@ func Go(name string, f func()) *G {
 		byID[id] = g
 		mu.Unlock()
 		defer func() {
+			// a managed goroutine that panics (an unaligned 64-bit atomic on a 32-bit platform, an index out of range ...) ends; the
+			// panic is kept for the player, which reports it as an observation instead of dying with it
+			if x := recover(); x != nil {
+				if !KeepPanics {
+					panic(x)
+				}
+				mu.Lock()
+				Panics = append(Panics, g.Name+": "+fmt.Sprint(x))
+				mu.Unlock()
+			}
 			mu.Lock()
 			delete(byID, id)
 			mu.Unlock()
